@@ -102,3 +102,10 @@ for what in ('add', 'remove'):
         roots={'DISP': BI + what + r'_or_choose_subtree<'}, stubs={'STEP4': IH % (what, 4), 'STEP16': IH % (what, 16), 'STEP48': IH % (what, 48), 'STEP256': IH % (what, 256)},
         cfgs=CFG_TREE, thorough_cfgs=ALL_CFGS, unwind=4, floor=5, timeout=300,
         under_contract=['basic_inode_impl::%s_or_choose_subtree (class dispatch)' % what] + ['inode_%d::%s_or_choose_subtree (forwarding wrapper)' % (n, what) for n in (4, 16, 48, 256)])
+OBI = r'unodb::detail::basic_inode_impl<unodb::detail::basic_art_policy<unsigned long, [^(]*unodb::olc_db, [^(]*>::'
+OIH = r'unodb::detail::olc_impl_helpers::%s_or_choose_subtree<[^(]*olc_inode_%d<'
+for what in ('add', 'remove'):
+    job('tree.olc64.dispatch.' + what, ['C01', 'C08', 'C16'], 'u_olc', 'proofs/tree/dispatch.c', defines=['POL=OLC64', 'POL_OLC', 'WHAT_' + what.upper()],
+        roots={'DISP': OBI + what + r'_or_choose_subtree<'}, stubs={'STEP4': OIH % (what, 4), 'STEP16': OIH % (what, 16), 'STEP48': OIH % (what, 48), 'STEP256': OIH % (what, 256)},
+        cfgs=(BASE, DEBUG), thorough_cfgs=ALL_CFGS, unwind=4, floor=5, timeout=300,
+        under_contract=['olc basic_inode_impl::%s_or_choose_subtree (class dispatch)' % what] + ['olc_inode_%d::%s_or_choose_subtree (forwarding wrapper)' % (n, what) for n in (4, 16, 48, 256)])
